@@ -16,6 +16,7 @@ git -C /repo worktree add --detach -q "$wt" HEAD || exit 2
 trap 'git -C /repo worktree remove --force "$wt" 2>/dev/null; rm -rf "$wt" "$snap" "$CRDSIM_OUT"' EXIT
 for d in seeded/$pat/; do
   id=$(basename "$d")
+  if python3 -c "import json,sys;sys.exit(0 if json.load(open('$d/meta.json')).get('retired') else 1)"; then echo "$id: retired"; continue; fi
   prop=$(python3 -c "import json;print(json.load(open('$d/meta.json'))['property'])")
   also=$(python3 -c "import json;print(' '.join(json.load(open('$d/meta.json')).get('also_check',[])))")
   git -C "$wt" checkout -q -- . && git -C "$wt" clean -fdq
